@@ -212,6 +212,21 @@ def run(chk):
         scramble(victim, rng)
         if not wire.deep_eq(g.asdict(), before) or json.dumps(g.asdict()) != json.dumps(before):
             chk.violation("asdict:aliases-graph", "mutating the returned dictionary changed the graph", rep)
+        # ... nor the graph that was resolved FROM the dictionary (self-contained: the form can be edited, re-used or
+        # discarded after it has been read back)
+        try:
+            with warnings.catch_warnings():
+                warnings.simplefilter("ignore")
+                src = g.asdict()
+                g2 = demes.Graph.fromdict(src)
+                before2 = copy.deepcopy(g2.asdict())
+                scramble(src, rng)
+                after2 = g2.asdict()
+            if not wire.deep_eq(after2, before2) or json.dumps(after2) != json.dumps(before2):
+                chk.violation("asdict:reresolved-graph-aliases-dictionary",
+                              "changing the fully-resolved dictionary after it was resolved changed the graph resolved from it", rep)
+        except Exception as e:
+            chk.count("reresolve_failed")
         chk.sample(dict(graph=label, demes=len(g.demes)), limit=4)
     drv.close()
     return chk.finish("proof", nobl, ndis, axioms, RULE,
